@@ -266,7 +266,7 @@ def cases(draw):
 
 
 def streams(tier):
-    n = 250 if tier == "quick" else 4000
+    n = 250 if tier == "quick" else 2000
     return [Stream("calendars", "hyp", n, 16, cases, timeout_s=60)]
 
 
